@@ -28,6 +28,20 @@ def _module(prop: str):
     return importlib.import_module(f"cpverif.props.{prop.lower()}")
 
 
+def _find_violation(e, depth=0, seen=None):
+    seen = seen if seen is not None else set()
+    if e is None or id(e) in seen or depth > 12:
+        return None
+    seen.add(id(e))
+    if isinstance(e, Violation):
+        return e
+    for sub in getattr(e, "exceptions", ()) or ():
+        r = _find_violation(sub, depth + 1, seen)
+        if r is not None:
+            return r
+    return _find_violation(e.__cause__, depth + 1, seen) or _find_violation(e.__context__, depth + 1, seen)
+
+
 def _run_shard(task):
     prop, part_name, tier, seed, shard, nshards, known = task
     t0 = time.time()
@@ -47,16 +61,15 @@ def _run_shard(task):
         viol = {"check": v.check, "message": v.message, "case": v.case, "signature": v.signature}
     except BaseException as e:  # noqa: BLE001
         tb = e.__traceback__
-        inner = e
-        # Hypothesis may wrap; look through the chain for a Violation
-        seen = set()
-        while inner is not None and id(inner) not in seen:
-            seen.add(id(inner))
-            if isinstance(inner, Violation):
-                viol = {"check": inner.check, "message": inner.message, "case": inner.case,
-                        "signature": inner.signature}
-                break
-            inner = inner.__cause__ or inner.__context__
+        # Hypothesis may wrap (chained exceptions, or an ExceptionGroup such as FlakyFailure when a
+        # failure seen under OS thread scheduling does not reproduce on replay): look for a Violation
+        found = _find_violation(e)
+        if found is not None:
+            flaky = found is not e
+            viol = {"check": found.check, "message": found.message + (
+                "\n(observed once; Hypothesis could not reproduce it on replay - schedule dependent)"
+                if flaky and type(e).__name__.startswith("Flaky") else ""),
+                "case": found.case, "signature": found.signature}
         if viol is None:
             if isinstance(e, (KeyboardInterrupt, SystemExit, HarnessError)):
                 err = traceback.format_exc()
